@@ -38,7 +38,7 @@ def Sys.skel (sys : Sys) : Skel :=
 theorem skel_streams (sys : Sys) (f : List Stream) : ({ sys with streams := f } : Sys).skel = sys.skel := rfl
 theorem skel_clock (sys : Sys) (c : Nat) : ({ sys with clock := c } : Sys).skel = sys.skel := rfl
 
-theorem skel_drainStream (k : Nat) : ∀ (fuel : Nat) (sys : Sys), (drainStream k fuel sys).skel = sys.skel := by
+theorem skel_drainStream (k sid : Nat) : ∀ (fuel : Nat) (sys : Sys), (drainStream k sid fuel sys).skel = sys.skel := by
   intro fuel
   induction fuel with
   | zero => intro sys; rfl
@@ -60,7 +60,19 @@ theorem skel_drainStream (k : Nat) : ∀ (fuel : Nat) (sys : Sys), (drainStream 
   generalize (sys.streams.filter (fun s => s.sid == sid && !s.ended)) = l
   induction l generalizing sys with
   | nil => rfl
-  | cons s rest ih => simp only [List.foldl_cons]; rw [ih]; exact skel_drainStream _ _ _
+  | cons s rest ih => simp only [List.foldl_cons]; rw [ih]; exact skel_drainStream _ _ _ _
+
+@[simp] theorem skel_subReq (sys : Sys) (sid : Nat) (t : SubTurn) : (sys.subReq sid t).1.skel = sys.skel := by
+  simp [Sys.subReq]
+
+@[simp] theorem skel_touch (sys : Sys) (sid : Nat) : (sys.touch sid).skel = sys.skel := by
+  simp [Sys.touch]
+
+@[simp] theorem skel_touchAll : ∀ (l : List Nat) (sys : Sys), (sys.touchAll l).skel = sys.skel := by
+  intro l
+  induction l with
+  | nil => intro sys; rfl
+  | cons x rest ih => intro sys; simp only [Sys.touchAll]; rw [ih]; simp
 
 @[simp] theorem skel_postAll (ms : List Msg) : ∀ (l : List (Name × Nat)) (sys : Sys), (sys.postAll ms l).skel = sys.skel := by
   intro l
